@@ -565,7 +565,8 @@ ptm = real_module("pdfminer.pdftypes")
 
 
 class _XRefStreamParser(T.Sort):
-    KINDS = ["xref-with-index", "xref-default-index", "xref-odd-index", "xref-empty-index", "not-a-stream", "stream-of-other-type", "stream-without-type"]
+    KINDS = ["xref-with-index", "xref-default-index", "xref-odd-index", "xref-empty-index", "not-a-stream", "stream-of-other-type", "stream-without-type",
+             "xref-W-of-two", "xref-W-not-numbers", "xref-without-W", "xref-without-Size-or-Index", "xref-index-not-numbers"]
     def fresh(self, ctx, name):
         kind = ctx.choose(self.KINDS, "object-kind")
         LITX = pdm.LITERAL_XREF
@@ -581,6 +582,16 @@ class _XRefStreamParser(T.Sort):
             attrs["Index"] = [a, b, c2]
         elif kind == "xref-empty-index":
             attrs["Index"] = []
+        elif kind == "xref-W-of-two":
+            attrs["W"] = [w[0], w[1]]
+        elif kind == "xref-W-not-numbers":
+            attrs["W"] = [w[0], b"x", w[2]]
+        elif kind == "xref-without-W":
+            del attrs["W"]
+        elif kind == "xref-without-Size-or-Index":
+            del attrs["Size"]
+        elif kind == "xref-index-not-numbers":
+            attrs["Index"] = [a, None]
         decoded = T.Bytes().fresh(ctx, "decoded")
         strm = 17 if kind == "not-a-stream" else SObj(ptm.PDFStream, {"attrs": attrs, "get_data": SymFn(lambda I: decoded, "get_data"), "rawdata": b"raw", "data": None}, "stream")
         toks = [(0, 12), (3, 0), (5, "obj-keyword")]
@@ -599,7 +610,8 @@ c.param("parser", _XRefStreamParser())
 c.skip_cross = True
 c.wire = lambda bound, ghosts: bound["self"].f.__setitem__("ranges", [])
 c.mod("self.*").mod("parser._toks")
-c.may_raise(pdm.PDFNoValidXRef, lambda parser: parser._kind in ("not-a-stream", "stream-of-other-type", "stream-without-type"))
+c.may_raise(pdm.PDFNoValidXRef, lambda parser: parser._kind in ("not-a-stream", "stream-of-other-type", "stream-without-type", "xref-W-of-two", "xref-W-not-numbers",
+                                                                "xref-without-W", "xref-without-Size-or-Index", "xref-index-not-numbers"))
 c.may_raise(pdm.PDFSyntaxError, lambda parser: parser._kind == "xref-odd-index")
 
 
